@@ -135,7 +135,7 @@ class Array:
 
     @property
     def itemsize(self) -> int:
-        return self._dtype.length
+        return self._dtype.bitlength
 
     @property
     def trailing_bits(self) -> BitArray:
@@ -171,12 +171,12 @@ class Array:
     def _create_element(self, value: ElementType) -> Bits:
         """Create Bits from value according to the token_name and token_length"""
         b = self._dtype.build(value)
-        if len(b) != self._dtype.length:
+        if len(b) != self._dtype.bitlength:
             raise ValueError(f"The value {value!r} has the wrong length for the format '{self._dtype}'.")
         return b
 
     def __len__(self) -> int:
-        return len(self.data) // self._dtype.length
+        return len(self.data) // self._dtype.bitlength
 
     @overload
     def __getitem__(self, key: slice) -> Array:
@@ -191,21 +191,21 @@ class Array:
             start, stop, step = key.indices(len(self))
             if step != 1:
                 d = BitArray()
-                for s in range(start * self._dtype.length, stop * self._dtype.length, step * self._dtype.length):
-                    d.append(self.data[s: s + self._dtype.length])
+                for s in range(start * self._dtype.bitlength, stop * self._dtype.bitlength, step * self._dtype.bitlength):
+                    d.append(self.data[s: s + self._dtype.bitlength])
                 a = self.__class__(self._dtype)
                 a.data = d
                 return a
             else:
                 a = self.__class__(self._dtype)
-                a.data = self.data[start * self._dtype.length: stop * self._dtype.length]
+                a.data = self.data[start * self._dtype.bitlength: stop * self._dtype.bitlength]
                 return a
         else:
             if key < 0:
                 key += len(self)
             if key < 0 or key >= len(self):
                 raise IndexError(f"Index {key} out of range for Array of length {len(self)}.")
-            return self._dtype.read_fn(self.data, start=self._dtype.length * key)
+            return self._dtype.read_fn(self.data, start=self._dtype.bitlength * key)
 
     @overload
     def __setitem__(self, key: slice, value: Iterable[ElementType]) -> None:
@@ -224,7 +224,7 @@ class Array:
                 new_data = BitArray()
                 for x in value:
                     new_data += self._create_element(x)
-                self.data[start * self._dtype.length: stop * self._dtype.length] = new_data
+                self.data[start * self._dtype.bitlength: stop * self._dtype.bitlength] = new_data
                 return
             items_in_slice = len(range(start, stop, step))
             if not isinstance(value, Sized):
@@ -233,7 +233,7 @@ class Array:
                 # Create all the elements first, so that a value that doesn't fit leaves the Array unchanged.
                 elements = [self._create_element(v) for v in value]
                 for s, element in zip(range(start, stop, step), elements):
-                    self.data.overwrite(element, s * self._dtype.length)
+                    self.data.overwrite(element, s * self._dtype.bitlength)
             else:
                 raise ValueError(f"Can't assign {len(value)} values to an extended slice of length {items_in_slice}.")
         else:
@@ -241,7 +241,7 @@ class Array:
                 key += len(self)
             if key < 0 or key >= len(self):
                 raise IndexError(f"Index {key} out of range for Array of length {len(self)}.")
-            start = self._dtype.length * key
+            start = self._dtype.bitlength * key
             self.data.overwrite(self._create_element(value), start)
             return
 
@@ -249,23 +249,23 @@ class Array:
         if isinstance(key, slice):
             start, stop, step = key.indices(len(self))
             if step == 1:
-                self.data.__delitem__(slice(start * self._dtype.length, stop * self._dtype.length))
+                self.data.__delitem__(slice(start * self._dtype.bitlength, stop * self._dtype.bitlength))
                 return
             # We need to delete from the end or the earlier positions will change
             r = reversed(range(start, stop, step)) if step > 0 else range(start, stop, step)
             for s in r:
-                self.data.__delitem__(slice(s * self._dtype.length, (s + 1) * self._dtype.length))
+                self.data.__delitem__(slice(s * self._dtype.bitlength, (s + 1) * self._dtype.bitlength))
         else:
             if key < 0:
                 key += len(self)
             if key < 0 or key >= len(self):
                 raise IndexError
-            start = self._dtype.length * key
-            del self.data[start: start + self._dtype.length]
+            start = self._dtype.bitlength * key
+            del self.data[start: start + self._dtype.bitlength]
 
     def __repr__(self) -> str:
         list_str = f"{self.tolist()}"
-        trailing_bit_length = len(self.data) % self._dtype.length
+        trailing_bit_length = len(self.data) % self._dtype.bitlength
         final_str = "" if trailing_bit_length == 0 else ", trailing_bits=" + repr(
             self.data[-trailing_bit_length:])
         return f"Array('{self._dtype}', {list_str}{final_str})"
@@ -277,18 +277,18 @@ class Array:
 
     def tolist(self) -> List[ElementType]:
         return [self._dtype.read_fn(self.data, start=start)
-                for start in range(0, len(self.data) - self._dtype.length + 1, self._dtype.length)]
+                for start in range(0, len(self.data) - self._dtype.bitlength + 1, self._dtype.bitlength)]
 
     def append(self, x: ElementType) -> None:
-        if len(self.data) % self._dtype.length != 0:
+        if len(self.data) % self._dtype.bitlength != 0:
             raise ValueError("Cannot append to Array as its length is not a multiple of the format length.")
         self.data += self._create_element(x)
 
     def extend(self, iterable: Union[Array, array.array, Iterable[Any]]) -> None:
-        if len(self.data) % self._dtype.length != 0:
-            raise ValueError(f"Cannot extend Array as its data length ({len(self.data)} bits) is not a multiple of the format length ({self._dtype.length} bits).")
+        if len(self.data) % self._dtype.bitlength != 0:
+            raise ValueError(f"Cannot extend Array as its data length ({len(self.data)} bits) is not a multiple of the format length ({self._dtype.bitlength} bits).")
         if isinstance(iterable, Array):
-            if self._dtype.name != iterable._dtype.name or self._dtype.length != iterable._dtype.length:
+            if self._dtype.name != iterable._dtype.name or self._dtype.bitlength != iterable._dtype.bitlength:
                 raise TypeError(
                     f"Cannot extend an Array with format '{self._dtype}' from an Array of format '{iterable._dtype}'.")
             # No need to iterate over the elements, we can just append the data
@@ -300,7 +300,7 @@ class Array:
                 raise ValueError(f"Cannot extend from array with typecode {iterable.typecode}.")
             # The width comes from the array itself: the platform's size for a typecode (e.g. 'l') can differ from the struct standard size.
             other_dtype = dtype_register.get_dtype(name_value[0], iterable.itemsize * 8, scale=None)
-            if self._dtype.name != other_dtype.name or self._dtype.length != other_dtype.length:
+            if self._dtype.name != other_dtype.name or self._dtype.bitlength != other_dtype.bitlength:
                 raise ValueError(
                     f"Cannot extend an Array with format '{self._dtype}' from an array with typecode '{iterable.typecode}'.")
             self.data += iterable.tobytes()
@@ -318,7 +318,7 @@ class Array:
 
         """
         i = min(i, len(self))  # Inserting beyond len of array inserts at the end (copying standard behaviour)
-        self.data.insert(self._create_element(x), i * self._dtype.length)
+        self.data.insert(self._create_element(x), i * self._dtype.bitlength)
 
     def pop(self, i: int = -1) -> ElementType:
         """Return and remove an element of the Array.
@@ -338,9 +338,9 @@ class Array:
         If the Array format is not a whole number of bytes a ValueError will be raised.
 
         """
-        if self._dtype.length % 8 != 0:
+        if self._dtype.bitlength % 8 != 0:
             raise ValueError(
-                f"byteswap can only be used for whole-byte elements. The '{self._dtype}' format is {self._dtype.length} bits long.")
+                f"byteswap can only be used for whole-byte elements. The '{self._dtype}' format is {self._dtype.bitlength} bits long.")
         self.data.byteswap(self.itemsize // 8)
 
     def count(self, value: ElementType) -> int:
@@ -378,22 +378,22 @@ class Array:
             raise ValueError(f"Cannot extend Array as its data length ({len(self.data)} bits) is not a multiple of the format length ({self._dtype.bitlength} bits).")
 
         new_data = Bits(f)
-        max_items = len(new_data) // self._dtype.length
+        max_items = len(new_data) // self._dtype.bitlength
         items_to_append = max_items if n is None else min(n, max_items)
         self.data += new_data[0: items_to_append * self._dtype.bitlength]
         if n is not None and items_to_append < n:
             raise EOFError(f"Only {items_to_append} were appended, not the {n} items requested.")
 
     def reverse(self) -> None:
-        trailing_bit_length = len(self.data) % self._dtype.length
+        trailing_bit_length = len(self.data) % self._dtype.bitlength
         if trailing_bit_length != 0:
-            raise ValueError(f"Cannot reverse the items in the Array as its data length ({len(self.data)} bits) is not a multiple of the format length ({self._dtype.length} bits).")
-        for start_bit in range(0, len(self.data) // 2, self._dtype.length):
-            start_swap_bit = len(self.data) - start_bit - self._dtype.length
-            temp = self.data[start_bit: start_bit + self._dtype.length]
-            self.data[start_bit: start_bit + self._dtype.length] = self.data[
-                                                               start_swap_bit: start_swap_bit + self._dtype.length]
-            self.data[start_swap_bit: start_swap_bit + self._dtype.length] = temp
+            raise ValueError(f"Cannot reverse the items in the Array as its data length ({len(self.data)} bits) is not a multiple of the format length ({self._dtype.bitlength} bits).")
+        for start_bit in range(0, len(self.data) // 2, self._dtype.bitlength):
+            start_swap_bit = len(self.data) - start_bit - self._dtype.bitlength
+            temp = self.data[start_bit: start_bit + self._dtype.bitlength]
+            self.data[start_bit: start_bit + self._dtype.bitlength] = self.data[
+                                                               start_swap_bit: start_swap_bit + self._dtype.bitlength]
+            self.data[start_swap_bit: start_swap_bit + self._dtype.bitlength] = temp
 
     def pp(self, fmt: Optional[str] = None, width: int = 120,
            show_offset: bool = True, stream: TextIO = sys.stdout) -> None:
@@ -454,7 +454,7 @@ class Array:
     def equals(self, other: Any) -> bool:
         """Return True if format and all Array items are equal."""
         if isinstance(other, Array):
-            if self._dtype.length != other._dtype.length:
+            if self._dtype.bitlength != other._dtype.bitlength:
                 return False
             if self._dtype.name != other._dtype.name:
                 return False
@@ -479,7 +479,7 @@ class Array:
         start = 0
         for _ in range(len(self)):
             yield self._dtype.read_fn(self.data, start=start)
-            start += self._dtype.length
+            start += self._dtype.bitlength
 
     def __copy__(self) -> Array:
         a_copy = self.__class__(self._dtype)
@@ -499,7 +499,7 @@ class Array:
             def partial_op(a):
                 return op(a)
         for i in range(len(self)):
-            v = self._dtype.read_fn(self.data, start=self._dtype.length * i)
+            v = self._dtype.read_fn(self.data, start=self._dtype.bitlength * i)
             try:
                 new_data.append(new_array._create_element(partial_op(v)))
             except (CreationError, ZeroDivisionError, ValueError) as e:
@@ -520,7 +520,7 @@ class Array:
         failures = index = 0
         msg = ''
         for i in range(len(self)):
-            v = self._dtype.read_fn(self.data, start=self._dtype.length * i)
+            v = self._dtype.read_fn(self.data, start=self._dtype.bitlength * i)
             try:
                 new_data.append(self._create_element(op(v, value)))
             except (CreationError, ZeroDivisionError, ValueError) as e:
@@ -543,10 +543,10 @@ class Array:
     def _apply_bitwise_op_to_all_elements_inplace(self, op, value: BitsType) -> Array:
         """Apply op with value to each element of the Array as an unsigned integer in place."""
         value = BitArray._create_from_bitstype(value)
-        if len(value) != self._dtype.length:
-            raise ValueError(f"Bitwise op needs a bitstring of length {self._dtype.length} to match format {self._dtype}.")
-        for start in range(0, len(self) * self._dtype.length, self._dtype.length):
-            self.data[start: start + self._dtype.length] = op(self.data[start: start + self._dtype.length], value)
+        if len(value) != self._dtype.bitlength:
+            raise ValueError(f"Bitwise op needs a bitstring of length {self._dtype.bitlength} to match format {self._dtype}.")
+        for start in range(0, len(self) * self._dtype.bitlength, self._dtype.bitlength):
+            self.data[start: start + self._dtype.bitlength] = op(self.data[start: start + self._dtype.bitlength], value)
         return self
 
     def _apply_op_between_arrays(self, op, other: Array, is_comparison: bool = False) -> Array:
@@ -566,8 +566,8 @@ class Array:
         failures = index = 0
         msg = ''
         for i in range(len(self)):
-            a = self._dtype.read_fn(self.data, start=self._dtype.length * i)
-            b = other._dtype.read_fn(other.data, start=other._dtype.length * i)
+            a = self._dtype.read_fn(self.data, start=self._dtype.bitlength * i)
+            b = other._dtype.read_fn(other.data, start=other._dtype.bitlength * i)
             try:
                 new_data.append(new_array._create_element(op(a, b)))
             except (CreationError, ValueError, ZeroDivisionError) as e:
